@@ -126,8 +126,9 @@ func (st *c06State) afterAttempt(e *walsim.Engine, a *walsim.Attempt) {
 	}
 	// ---- follow the documented bookkeeping
 	switch {
-	case a.Skipped:
-		// the store does not call the manager at all
+	case a.Skipped || !a.ManagerCalled:
+		// the manager was not called at all (nothing to snapshot, or the attempt failed
+		// before reaching it): its watch is unchanged
 	case a.PreWALLen == 0:
 		st.armed = false
 	case a.Full:
